@@ -262,6 +262,42 @@ def run(ctx):
         ob = core.attempt(E.process_beads_table, W['btab'].iloc[0:0], W['itab'], base_dir=base, verbose=False, full_output=True)
         ctx.check((not ob.raised) and all(len(x) == 0 for x in ob.value), 'empty-table', ('empty', 'beads'))
         ctx.case_done(class_key=('empty',), nontrivial=False)
+    # ---- the same batch WITHOUT the optional beads table ("no checking will be performed" of bead settings): the faults that
+    # do not depend on that table are still row errors, and a row whose calibration is missing is one of them
+    indep = [None, 'missing-file', 'few-events', 'fraction-neg', 'fraction-big', 'bad-units', 'calib-failed', 'calib-nomef', 'calib-nochannel']
+    nb_tables = [('nobeads', a, b) for a in range(len(indep)) for b in range(len(indep))
+                 if ctx.tier == 'thorough' or b in (0, (a + 3) % len(indep))]
+    for cid, rng in ctx.cases(nb_tables):
+        mon.cid = cid
+        assign = [indep[cid[1]], indep[cid[2]]]
+        hs = [W['healthy'][int(rng.integers(len(W['healthy'])))] for _ in assign]
+        rows = [apply_fault(h, k, int(rng.integers(len(MISSING_PATHS)))) for h, k in zip(hs, assign)]
+        stab = table(rows)
+        with warnings.catch_warnings():
+            warnings.simplefilter('ignore')
+            o = core.attempt(E.process_samples_table, stab, W['itab'], mef_transform_fxns=W['fx'], base_dir=base, verbose=False, plot=False)
+        ctx.counters['chk:no-escape'] += 1
+        d = dict(assignment=[k or 'none' for k in assign], beads_table='omitted')
+        if ctx.check(not o.raised, 'exception-escapes-batch', cid, exc=core.tb_str(o.exc)[-500:] if o.raised else None, **d):
+            res = o.value
+            ctx.check(list(res.keys()) == list(stab.index), 'result-keys-or-order', cid, got=list(res.keys()), want=list(stab.index))
+            for i, (r, k) in enumerate(zip(rows, assign)):
+                rid = 'R%d' % i
+                if rid not in res:
+                    continue
+                if k is None:
+                    ctx.counters['chk:isolation'] += 1
+                    ref = single_ref(r)
+                    g = res[rid]
+                    if ref is not None:
+                        ctx.check(not isinstance(g, Exception) and fp(g, ident=False) == ref, 'healthy-row-differs-from-single-row-run', cid,
+                                  row=i, error=str(g) if isinstance(g, Exception) else None, **d)
+                else:
+                    ctx.counters['chk:error-row'] += 1
+                    ctx.check(isinstance(res[rid], E.ExcelUIException), 'fault-not-recorded-as-row-error:' + k, cid, row=i,
+                              got=type(res[rid]).__name__, **d)
+        ctx.case_done(class_key=('table-without-beads-table', tuple(sorted(set(k or 'none' for k in assign)))), nontrivial=any(assign),
+                      distinct_key=core.digest(cid))
     # ---- bead tables ---------------------------------------------------------------------------
     bk = [None, 'missing-file', 'few-events', 'fraction-neg', 'fraction-big', 'unequal-mef']
     btabs = [('bt', a, b) for a in range(len(bk)) for b in range(len(bk))] if ctx.tier == 'thorough' else \
